@@ -174,7 +174,6 @@ func %s() {
 `, sc.id, name, sc.call)
 		fam.Instances = append(fam.Instances, Instance{Func: name, Stratum: "sequence:" + sc.id, Desc: sc.id + " then whole-set models on the same builder", Expect: []string{"executed"}})
 	}
-	b.WriteString("\nfunc countSince(mark int, name string) int {\n\tc := 0\n\tfor _, e := range vnd.Trace()[mark:] {\n\t\tif e == name {\n\t\t\tc++\n\t\t}\n\t}\n\treturn c\n}\n")
 	finishFamily(fam, pkg, b.String())
 	return fam, nil
 }
